@@ -243,6 +243,33 @@ def run(chk: Check, model):
     if ok:
         k = st[0].key[1]
         ok = k[0][0] == "attr" and k[0][2] == "name" and k[0][1][2] == "output_node" and k[1][1][2] == "input_node" and len(st[0].loops) == 2
+    # the communication delay stored for a connection is that connection's own distribution (Deterministic(min) for a trainable one)
+    dd_st = [e for e in st if e.term[0] == "ite" or (e.term[0] == "attr" and e.term[2] == "delay_dist")]
+    okd = len(dd_st) == 1
+    if okd:
+        conn = [e for e in st if e is not dd_st[0]]
+        c_t = conn[0].term if conn else T.NONE
+        v = dd_st[0].term
+        if v[0] == "ite":
+            cnds = [x[1] for x in T.walk(v) if x[0] == "ite"]
+            plain = v
+            for c_ in cnds:
+                plain = T.assume(plain, c_, False)
+        else:
+            plain = v
+        okd = plain == T.mk_attr(c_t, "delay_dist")
+    chk.add("C12.mask", "the delay sampled for a connection is the connection's own delay distribution", bool(okd),
+            f"communication delay stored for a connection = {T.show(dd_st[0].term)[:200] if dd_st else None}, expected c.delay_dist of the same connection", chk.loc(fi))
+    # augment_graphs: an un-batched graph gets one temporary episode axis, and exactly that axis is removed again
+    f_aug = model.func("artificial.augment_graphs")
+    chk.used(f_aug.qualname)
+    ra = SymEval(model).run_function(f_aug)
+    exp = [e for e in ra.events if e.kind == "call" and e.name == "jax.numpy.expand_dims"]
+    sq = [e for e in ra.events if e.kind == "call" and e.name == "jax.numpy.squeeze"]
+    oka = len(exp) == 1 and len(sq) == 1 and dict(exp[0].kwargs).get("axis", exp[0].args[1] if len(exp[0].args) > 1 else None) == T.ZERO \
+        and dict(sq[0].kwargs).get("axis", sq[0].args[1] if len(sq[0].args) > 1 else None) == T.ZERO and flow.equivalent(exp[0].guard, sq[0].guard)
+    chk.add("C12.augment", "augment_graphs removes exactly the episode axis it added", bool(oka), "an un-batched graph is expanded with expand_dims(x, axis=0) and must be restored with "
+            "squeeze(x, axis=0) under the same condition (an axis-free squeeze also collapses length-1 vertex / message axes)", chk.loc(f_aug))
     chk.add("C12.augment", "connections keyed (sender, receiver) over all nodes' outputs", bool(ok), "communication delays and connections must be keyed (c.output_node.name, c.input_node.name) for every output of every node", chk.loc(fi))
 
 
